@@ -26,6 +26,10 @@ func init() {
 const cl = "server/commitlog."
 
 func runC01(c *eng.Ctx) {
+	c.Rule("R01.16", "K1")
+	ruleEmptyBatchIsANoOp(c)
+	c.Rule("R03.15", "K3")
+	ruleAppendsWakeParkedCommittedReaders(c)
 	c.Rule("R01.1", "K5")
 	ruleOffsetIdentity(c)
 	c.Floor(8)
